@@ -11,6 +11,7 @@ package app
 
 import (
 	"fmt"
+	"net"
 	"net/http"
 	"net/http/httptest"
 	"os"
@@ -125,13 +126,22 @@ func c20IP(ipSpec string) string { return strings.TrimPrefix(ipSpec, "xff:") }
 func TestVerifC20(t *testing.T) {
 	rep := vh.NewReport("C20")
 	defer rep.Write()
-	wl := func(ip string) bool { return strings.HasPrefix(ip, "10.") }
+	// white list 10.0.0.0/8; an IPv4-mapped IPv6 address is the IPv4 address it carries
+	wl := func(ip string) bool {
+		p := net.ParseIP(ip)
+		if p == nil {
+			return false
+		}
+		v4 := p.To4()
+		return v4 != nil && v4[0] == 10
+	}
 	scenarios := []c20Scenario{
 		{name: "3x1-same-ip", max: 2, clients: [][]string{{"1.2.3.4"}, {"1.2.3.4"}, {"1.2.3.4"}}, reader: "1.2.3.4"},
 		{name: "2x2-same-ip", max: 3, clients: [][]string{{"1.2.3.4", "1.2.3.4"}, {"1.2.3.4", "1.2.3.4"}}, reader: "1.2.3.4"},
 		{name: "mixed-ips", max: 1, clients: [][]string{{"1.2.3.4", "xff:1.2.3.4"}, {"2001:db8::1", "1.2.3.4"}, {"10.1.1.1", "10.1.1.1"}}, reader: "10.1.1.1"},
 		{name: "boundary-tick", max: 1, clients: [][]string{{"1.2.3.4", "1.2.3.4"}, {"1.2.3.4"}}, reader: "1.2.3.4", tickTo: c20Interval + 1, startOff: c20Interval},
 		{name: "after-boundary", max: 1, clients: [][]string{{"1.2.3.4"}, {"1.2.3.4"}, {"5.6.7.8"}}, reader: "5.6.7.8", startOff: c20Interval + 1},
+		{name: "mapped-addresses", max: 1, clients: [][]string{{"xff:::ffff:10.2.3.4", "xff:::ffff:10.2.3.4", "xff:::ffff:10.2.3.4"}, {"xff:::ffff:1.2.3.4", "xff:::ffff:1.2.3.4"}, {"xff:10.2.3.4", "1.2.3.4"}}, reader: "xff:::ffff:1.2.3.4"},
 		{name: "after-boundary-logfile", max: 3, clients: [][]string{{"1.2.3.4", "1.2.3.4"}, {"1.2.3.4"}, {"5.6.7.8"}}, reader: "1.2.3.4", startOff: c20Interval + 1, logFile: true},
 		{name: "boundary-tick-logfile", max: 2, clients: [][]string{{"1.2.3.4", "1.2.3.4"}, {"1.2.3.4"}}, reader: "1.2.3.4", tickTo: c20Interval + 1, startOff: c20Interval, logFile: true},
 	}
@@ -199,7 +209,7 @@ func TestVerifC20(t *testing.T) {
 			if sc.reader != "" {
 				hs = append(hs, s.Spawn("reader", func() {
 					s.Point("request")
-					rec := opRec{in: c20In{kind: "count", ip: sc.reader, now: s.Now()}, call: tick(), tid: 100}
+					rec := opRec{in: c20In{kind: "count", ip: c20IP(sc.reader), now: s.Now()}, call: tick(), tid: 100}
 					w := httptest.NewRecorder()
 					srv.reqCountHandlerFunc(w, c20Request(sc.reader))
 					rec.rt = tick()
